@@ -51,6 +51,32 @@ let root_handler op _ver args obs =
     | _ -> Some "malformed observation" in
   { model = (if obs_cmp == obs then model else model); tags; spec; known = None }, obs_cmp
 
+(* Deep<ctor> num den depth: radicands of a thousand bits and more, hundreds of digits deep.  Only the statement is
+   evaluated on the implementation's digits (ctor_check_fast: proved equal to the sound checker ctor_check); the
+   model's own digit extraction is not run (it would take half a minute per case). *)
+let deep_handler op _ver args obs =
+  let a = mk args in
+  let num = next_z a in let den = next_z a in let depth = next_int a in
+  let k = kind_of_op op in
+  match obs with
+  | ["TIMEOUT"] -> { model = ["RETURNS"]; tags = []; spec = Some "the call did not return within its time budget"; known = None }
+  | "N" :: rest ->
+    (try
+      let o = mk rest in
+      let e = next_z o in
+      let ds = next_list o next_z in
+      let ended = (next o = "1") in
+      if ctor_check_fast k num den (nat_of_int depth) e ds ended then ok_v obs ["deep-statement-only"]
+      else { model = ["the-exact-truncated-root"]; tags = []; spec = Some "digits/exponent are not the exact truncated root (ctor_check rejects)"; known = None }
+    with _ -> { model = []; tags = []; spec = Some "malformed observation"; known = None })
+  | _ -> { model = ["N"]; tags = []; spec = Some "a positive radicand must yield a non-zero number"; known = None }
+
+let () =
+  List.iter (fun prop ->
+    List.iter (fun op -> reg prop ("Deep" ^ op) (deep_handler op))
+      ["SqrtBigInt"; "SqrtBigRat"; "CubeRootBigInt"; "CubeRootBigRat"; "FromBigRat"])
+    ["C01"; "C02"; "C03"; "C13"]
+
 (* Pair: two independent Numbers *)
 let split_obs obs =
   (* obs of one number: Z 0 -1 | N e k d1..dk ended | PANIC msg *)
